@@ -95,7 +95,7 @@ def bit_queries(rng, oid, n, v, nq, sel0=True, rank=True, acc=True, pred=False):
     pos = ones_positions(n, v) if n <= 400_000 else []
     ones = len(pos) if n <= 400_000 else bin(v).count('1')
     zeros = n - ones
-    L = ['q %d num_bits' % oid, 'q %d num_ones' % oid, 'q %d num_zeros' % oid]
+    L = ['q %d num_bits' % oid, 'q %d num_ones' % oid, 'q %d num_zeros' % oid, 'q %d is_empty' % oid, 'q %d len' % oid]
     somepos = rng.sample(pos, min(len(pos), 4)) if pos else []
     for a in arg_set(rng, [n, n - 1, n + 1] + somepos, n, nq):
         if acc: L.append('q %d access %d' % (oid, a))
@@ -276,7 +276,7 @@ def lst(xs): return ','.join(map(str, xs)) if xs else '-'
 
 def ef_queries(rng, oid, u, xs, nq, rank=True):
     n = len(xs)
-    L = ['q %d len' % oid, 'q %d universe' % oid]
+    L = ['q %d len' % oid, 'q %d universe' % oid, 'q %d is_empty' % oid, 'q %d has_rank' % oid]
     some = rng.sample(xs, min(n, 5)) if xs else []
     for k in arg_set(rng, [n, n - 1, n + 1], n, nq):
         L.append('q %d select %d' % (oid, k)); L.append('q %d delta %d' % (oid, k))
@@ -360,7 +360,7 @@ def gen_C05(rng, tier, want='C05'):
             L = ['case %s-%d n=%d max=%d %s' % (want, ci, n, mx, backing), 'new 50 cv new %d' % w, 'm 50 extend %s' % lst(xs), 'new 0 %s from_cv 50' % backing]
         else:
             L = ['case %s-%d n=%d max=%d %s' % (want, ci, n, mx, backing), 'new 0 %s new %s' % (backing, lst(xs))]
-        L += ['q 0 len', 'q 0 alph_size']
+        L += ['q 0 len', 'q 0 alph_size', 'q 0 is_empty', 'q 0 alph_width']
         vals = lambda: min(MAXU, rng.choice([rng.choice(xs), rng.choice(xs), rng.randrange(0, mx + 2), mx + 1, 1 << width, (1 << width) + rng.choice(xs), MAXU, 0]))
         if want == 'C05':
             for i in arg_set(rng, [n, n - 1, n + 1], n, 8): L.append('q 0 access %d' % i)
@@ -388,6 +388,8 @@ def gen_C05(rng, tier, want='C05'):
                 k = rng.choice([0, 0, 1, max(0, m - 1), m, m + 1, MAXU])
                 L.append('q 0 intersect %s %d' % (','.join('%d..%d' % r for r in rs) if rs else '-', k))
         cases.append(L)
+    for b in ('wmr', 'wmd', 'wmb'):     # the empty sequence is rejected
+        cases.append(['case %s-empty-%s' % (want, b), 'new 0 %s new -' % b, 'q 0 len', 'new 1 cv new 5', 'new 2 %s from_cv 1' % b, 'q 2 len'])
     return cases
 
 def gen_C06(rng, tier): return gen_C05(rng, tier, 'C06')
@@ -589,7 +591,7 @@ def cv_hist(rng, ci):
             p = rng.choice([0, 1, max(0, n - 1), n, n + 1, rng.randrange(0, n + 2), 2**63, 2**62, 2**58, 2**57 + 1, MAXU // max(w, 1), MAXU // max(w, 1) + 1, MAXU - 1, MAXU])
             L.append('q 0 %s %d' % (rng.choice(['get_int', 'get_int', 'access']), min(p, MAXU)))
         if rng.random() < 0.1: L += ['q 0 len', 'q 0 width']
-    L += ['q 0 len', 'q 0 width', 'it 0 iter - %s' % ','.join(['n'] * min(n + 2, 40)), 'q 0 ser', 'q 0 size_in_bytes']
+    L += ['q 0 len', 'q 0 width', 'q 0 num_vals', 'q 0 is_empty', 'it 0 iter - %s' % ','.join(['n'] * min(n + 2, 40)), 'q 0 ser', 'q 0 size_in_bytes']
     return L
 
 def gen_C09(rng, tier):
@@ -635,7 +637,7 @@ def gen_C10(rng, tier, prop='C10'):
         xs = dac_vals(rng, tier, ci); n = len(xs)
         lim = rng.choice(['none', '1', '2', '3', '4', '8', '63', '64', str(rng.randrange(1, 65))])
         L = ['case %s-%d n=%d L=%s' % (prop, ci, n, lim), 'new 0 do from_slice %s %s' % (lim, lst(xs))]
-        L += ['q 0 len', 'q 0 num_levels', 'q 0 widths']
+        L += ['q 0 len', 'q 0 num_levels', 'q 0 widths', 'q 0 num_vals', 'q 0 is_empty']
         if xs and max(xs).bit_length() <= 12: L.append('q 0 brute_cost')
         if prop == 'C10':
             for i in arg_set(rng, [n, n - 1, n + 1], n, 12): L.append('q 0 access %d' % i)
@@ -662,7 +664,7 @@ def gen_C11(rng, tier):
         if ci % 9 == 0: xs = [rng.getrandbits(8 * rng.randrange(1, 9)) for _ in range(3000)]
         n = len(xs)
         L = ['case C11-%d n=%d' % (ci, n), 'new 0 db %s %s' % (rng.choice(['from_slice', 'from_slice', 'build']), lst(xs))]
-        L += ['q 0 len', 'q 0 num_levels', 'q 0 widths']
+        L += ['q 0 len', 'q 0 num_levels', 'q 0 widths', 'q 0 num_vals', 'q 0 is_empty']
         for i in arg_set(rng, [n, n - 1, n + 1], n, 14): L.append('q 0 access %d' % i)
         L.append('it 0 iter - %s' % ','.join(['n'] * min(n + 2, 60)))
         if n <= 1500: L.append('q 0 ser')
@@ -691,7 +693,7 @@ def gen_C12(rng, tier):
         while sum(xs) >= MAXU:   # representable sum only
             xs = [x // 2 for x in xs]
         L = ['case C12-%d n=%d sum=%d' % (ci, n, sum(xs)), 'new 0 ps %s %s' % (rng.choice(['from_slice', 'from_slice', 'build']), lst(xs))]
-        L += ['q 0 len', 'q 0 sum']
+        L += ['q 0 len', 'q 0 sum', 'q 0 num_vals', 'q 0 is_empty']
         for i in arg_set(rng, [n, n - 1, n + 1], n, 12): L.append('q 0 access %d' % i)
         L.append('it 0 iter - %s' % ','.join(['n'] * min(n + 2, 70)))
         L.append('q 0 ser'); L.append('q 0 size_in_bytes')
